@@ -148,11 +148,11 @@ def logic_cc():
     t = strip_cpp_comments(read("src/logics/Logic.cc"))
     res = {}
     # isReservedWord
-    b = norm(function_body(t, r"bool\s+Logic::isReservedWord\s*\(\s*std::string\s+const\s*&\s*name\s*\)\s*const\s*\{", "Logic::isReservedWord"))
+    b = norm(function_body(t, r"bool\s+Logic::isReservedWord\s*\(\s*std::string\s+const\s*&\s*name\s*\)\s*(const\s*)?\{", "Logic::isReservedWord"))
     if b != "return tokens::tokenNames.find(name) != tokens::tokenNames.end();":
         raise TranslateError("Logic::isReservedWord is no longer the membership test in tokens::tokenNames: " + b[:120])
     # hasQuotableChars
-    b = function_body(t, r"bool\s+Logic::hasQuotableChars\s*\(\s*std::string\s+const\s*&\s*name\s*\)\s*const\s*\{", "Logic::hasQuotableChars")
+    b = function_body(t, r"bool\s+Logic::hasQuotableChars\s*\(\s*std::string\s+const\s*&\s*name\s*\)\s*(const\s*)?\{", "Logic::hasQuotableChars")
     nb = norm(b)
     m = re.match(r"^(if \(name\.front\(\) == '\|' and name\.back\(\) == '\|'\) return false; )?return name\.find_first_not_of\((.*)\) != std::string::npos;$", nb)
     if not m:
@@ -162,14 +162,15 @@ def logic_cc():
     if re.sub(r'"((?:[^"\\]|\\.)*)"', "", m.group(2)).strip():
         raise TranslateError("Logic::hasQuotableChars: the character set is not a plain literal")
     # protectName
-    b = norm(function_body(t, r"std::string\s+Logic::protectName\s*\(\s*std::string\s+const\s*&\s*name\s*,\s*bool\s+isInterpreted\s*\)\s*const\s*\{", "Logic::protectName"))
+    b = norm(function_body(t, r"std::string\s+Logic::protectName\s*\(\s*std::string\s+const\s*&\s*name\s*,\s*bool\s+isInterpreted\s*\)\s*(const\s*)?\{", "Logic::protectName"))
     b = re.sub(r"^assert\(not name\.empty\(\)\); ", "", b)
     m = re.match(r"^if \((not isInterpreted and )?\(?(.*?)\)?\) \{ return '\|' \+ name \+ '\|'; \} return name;$", b)
     if not m:
         raise TranslateError("Logic::protectName not recognised: " + b[:200])
     atoms = [a.strip() for a in m.group(2).split(" or ")]
-    known = {"hasQuotableChars(name)": "quotable", "std::isdigit(name[0])": "digit", "isReservedWord(name)": "reserved"}
-    flags = dict(interp=bool(m.group(1)), quotable=False, digit=False, reserved=False)
+    known = {"hasQuotableChars(name)": "quotable", "std::isdigit(name[0])": "digit", "isReservedWord(name)": "reserved",
+             "name.empty()": "empty", "(name.size() > 1 and name[0] == '-' and std::isdigit(name[1]))": "minus_digit"}
+    flags = dict(interp=bool(m.group(1)), quotable=False, digit=False, reserved=False, empty=False, minus_digit=False)
     for a in atoms:
         if a not in known:
             raise TranslateError("Logic::protectName: unknown condition %r" % a)
@@ -189,7 +190,8 @@ def logic_cc():
     pb = norm(function_body(p, r"bool\s+PtStore::isAmbiguousNullarySymbolName\s*\(\s*std::string_view\s+name\s*\)\s*const\s*\{", "PtStore::isAmbiguousNullarySymbolName"))
     if "symstore.getRefOrNull(name.data())" in pb:
         res["view_data"] = True      # C string from the view's start: runs to the NUL of the protected name
-    elif re.search(r"getRefOrNull\(std::string\(name\)(\.c_str\(\)|\.data\(\))?\)", pb) or "getRefOrNull(name)" in pb:
+    elif re.search(r"getRefOrNull\(std::string\(name\)(\.c_str\(\)|\.data\(\))?\)", pb) or "getRefOrNull(name)" in pb \
+            or ("std::string const key(name);" in pb and "symstore.getRefOrNull(key.c_str())" in pb):
         res["view_data"] = False
     else:
         raise TranslateError("PtStore::isAmbiguousNullarySymbolName: lookup key not recognised: " + pb[:200])
@@ -323,8 +325,14 @@ def interpret_cc():
     b = norm(function_body(t, r"bool\s+Interpret::getAssignment\s*\(\s*\)\s*const\s*\{", "Interpret::getAssignment"))
     loop = ("ss << '('; for (auto const & [name, term] : termNames) { lbool val = solver.getTermValue(term); "
             "ss << '(' << name << ' ' << (val == l_True ? \"true\" : (val == l_False ? \"false\" : \"unknown\")) << ')' << \" \"; } ")
+    fixed_loop = ("ss << '('; bool first = true; for (auto const & [name, term] : termNames) { lbool val = solver.getTermValue(term); "
+                  "if (not first) { ss << ' '; } first = false; "
+                  "ss << '(' << Logic::protectName(name, false) << ' ' << (val == l_True ? \"true\" : (val == l_False ? \"false\" : \"unknown\")) << ')'; } "
+                  "ss << ')'; notify_formatted(false, \"%s\", ss.str().c_str());")
     if loop + "ss.seekp(-1, std::ios::cur); ss << ')'; notify_formatted(false, ss.str().c_str());" in b:
         res["assign"] = "seekp-raw-format"
+    elif fixed_loop in b:
+        res["assign"] = "fixed"
     else:
         raise TranslateError("Interpret::getAssignment: printing loop not recognised")
     b = norm(function_body(t, r"void\s+printAstTermNode\s*\(\s*ASTNode\s+const\s*&\s*astNode\s*\)\s*\{", "printAstTermNode"))
@@ -332,20 +340,42 @@ def interpret_cc():
             and "const char* name = (**node_iter).getValue(); node_iter++; std::cout << \"(\"; std::cout << name << \" \";" in b
             and "std::cout << \"(!\"; printAstTermNode(named_term);" in b):
         res["echo"] = "raw"
+    elif ("} else if (t == QID_T) { printAstQualifiedIdentifier(**(astNode.children->begin())); }" in b
+          and "std::cout << \"(\"; printAstQualifiedIdentifier(**node_iter); node_iter++; std::cout << \" \";" in b
+          and "std::cout << \"(! \"; printAstTermNode(named_term);" in b
+          and "std::cout << \" \" << printedSymbol(sym.getValue());" in b
+          and "std::cout << \"(\" << printedSymbol(vb->getValue()) << \" \";" in b
+          and "std::string printedSymbol(char const * name) { return Logic::protectName(name, false); }" in norm(t)):
+        res["echo"] = "fixed"
     else:
         raise TranslateError("printAstTermNode not recognised")
     u = strip_cpp_comments(read("src/unsatcores/UnsatCore.cc"))
     b = norm(function_body(u, r"void\s+NamedUnsatCore::printTerm\s*\(", "NamedUnsatCore::printTerm"))
     if b == "assert(termNames.contains(term)); os << termNames.nameForTerm(term);":
         res["core"] = "raw"
+    elif b == "assert(termNames.contains(term)); os << Logic::protectName(termNames.nameForTerm(term), false);":
+        res["core"] = "fixed"
     else:
         raise TranslateError("NamedUnsatCore::printTerm not recognised: " + b[:120])
     s = strip_cpp_comments(read("src/sorts/SStore.h"))
     b = norm(function_body(s, r"std::string\s+sortToString\s*\(\s*SRef\s+sr\s*\)\s*const\s*\{", "SStore::sortToString"))
-    if "std::string name = getSortSymName(sr);" in b or "name = getSortSymName(" in b or "getName(" in b:
-        res["sort"] = "raw"
-    else:
+    if not b.startswith("std::string name = getSortSymName(sr); if (sa[sr].getSize() > 0) {"):
         raise TranslateError("SStore::sortToString not recognised: " + b[:200])
+    lg = strip_cpp_comments(read("src/logics/Logic.cc"))
+    b = norm(function_body(lg, r"std::string\s+Logic::sortToString\s*\(\s*SRef\s+s\s*\)\s*const\s*\{", "Logic::sortToString"))
+    if b == "return sort_store.sortToString(s);":
+        res["sort"] = "raw"
+    elif b.startswith("SSymRef const ssr = sort_store.getSortSym(s); std::string name = isBuiltinSortSym(ssr) ? sort_store.getSortSymName(ssr) : protectName(sort_store.getSortSymName(ssr), false);"):
+        res["sort"] = "fixed"
+    else:
+        raise TranslateError("Logic::sortToString not recognised: " + b[:200])
+    if "forbiddenVars.find(var) != forbiddenVars.end()" in norm(t) and "resolver.addForbiddenVar(term);" in norm(t):
+        res["clash"] = "by-term"
+    elif "while (logic.hasSym(name.c_str()));" in norm(t) and "resolver.addForbiddenName(logic->getSymName(symref));" in norm(t) \
+            and "forbiddenNames.find(name) != forbiddenNames.end() or logic.isAmbiguousUninterpretedNullarySymbolName(name)" in norm(t):
+        res["clash"] = "by-name"
+    else:
+        raise TranslateError("NameClashResolver not recognised")
     return res
 
 
@@ -383,7 +413,7 @@ def generate():
     L.append("Definition gen_already_quoted_shortcut : bool := %s." % coq_bool(lg["shortcut"]))
     L.append("")
     L.append("(* src/logics/Logic.cc: Logic::protectName -- which tests guard the quoting *)")
-    for k in ("interp", "quotable", "digit", "reserved"):
+    for k in ("interp", "quotable", "digit", "reserved", "empty", "minus_digit"):
         L.append("Definition gen_protect_%s : bool := %s." % (k, coq_bool(lg["protect"][k])))
     L.append("")
     L.append("(* Logic::disambiguateName / PtStore::isAmbiguousNullarySymbolName: the lookup key is the C string at the")
@@ -410,6 +440,7 @@ def generate():
     L.append("Definition gen_echo_raw_names : bool := %s." % coq_bool(ip["echo"] == "raw"))
     L.append("Definition gen_core_raw_names : bool := %s." % coq_bool(ip["core"] == "raw"))
     L.append("Definition gen_sort_raw_names : bool := %s." % coq_bool(ip["sort"] == "raw"))
+    L.append("Definition gen_clash_by_term : bool := %s." % coq_bool(ip["clash"] == "by-term"))
     return "\n".join(L) + "\n"
 
 
